@@ -175,30 +175,24 @@ theorem C06_counterexample : ¬ C06_full := by
   rw [this] at hb
   exact Bool.noConfusion hb
 
-/-- the hstack witness at the level of `run`: for every kernel, `np.hstack` on quantities returns
-    what `np.vstack` computes on the stripped arguments -/
-theorem hstack_runs_vstack {V R : Type} (numpy : Kernel V R) (alt : String → PyVal V) (alter : R → R)
-    (unitRule : Args V → String) (tup : PyVal V) :
+/-- a remaining witness at the level of `run`: `np.apply_over_axes` on a quantity never reaches a
+    NumPy kernel (the handler re-implements the loop), whatever the kernel is -/
+theorem apply_over_axes_runs_no_kernel {V R : Type} (numpy : Kernel V R) (alt : String → PyVal V)
+    (alter : R → R) (unitRule : Args V → String) (args : Args V) :
     (run numpy alt alter unitRule
-        ⟨"numpy.hstack", "pos", "tup:q", false, [(true, "numpy.vstack")], [("tup", Fwd.same)], Post.id⟩
-        [("tup", tup)]).values
-      = some (numpy "numpy.vstack" [("tup", tup.strip)]) := by
+        ⟨"numpy.apply_over_axes", "sum1", "a:q,axes:b,func:b", false, [], [], Post.none⟩ args).values = none := by
   rfl
 
-theorem hstack_row_is_regenerated :
-    (Generated.traceRows.any fun r => r.func == "numpy.hstack" && r.variant == "pos"
-        && r.calls == [(true, "numpy.vstack")]) = true := by
+theorem apply_over_axes_row_is_regenerated :
+    (Generated.traceRows.any fun r => r.func == "numpy.apply_over_axes" && r.calls.isEmpty && !r.raised) = true := by
   decide +kernel
 
-/-- the put witness: `mode` never reaches the kernel -/
-theorem put_drops_mode {V R : Type} (numpy : Kernel V R) (alt : String → PyVal V) (alter : R → R)
-    (unitRule : Args V → String) (a ind v mode : PyVal V) :
-    (run numpy alt alter unitRule
-        ⟨"numpy.put", "wrap", "", false, [(true, "numpy.put")],
-          [("a", Fwd.same), ("ind", Fwd.same), ("v", Fwd.same), ("mode", Fwd.dropped)], Post.none⟩
-        [("a", a), ("ind", ind), ("v", v), ("mode", mode)]).values
-      = some (numpy "numpy.put" [("a", a.strip), ("ind", ind.strip), ("v", v.strip)]) := by
-  rfl
+/-- regression guard for the repaired handlers: every regenerated row of hstack / put / stack /
+    einsum calls the function it implements and drops nothing -/
+theorem repaired_handlers_are_faithful :
+    (Generated.traceRows.all fun r =>
+      !(["numpy.hstack", "numpy.put", "numpy.stack", "numpy.einsum"].contains r.func) || (defects r).isEmpty) = true := by
+  decide +kernel
 
 /-! non-vacuity -/
 
